@@ -24,6 +24,8 @@ A_COMMON = [
     "A-LOOKUP: attribute reads on foreign objects are instance-dict-then-class lookups without descriptor side effects (reads of cached "
     "spec_property values may fill their cache: treated as reads, C12)",
     "A-ACYCLIC: the invalidated_by dependency graph is acyclic (termination of the recursive invalidation is not proved)",
+    "A-LEAF / A-RECV: instances of (subclasses of) immutable built-in scalar types (int, float, str, bytes, bool, module) carry no mutable "
+    "state, so handing them on uncopied shares nothing mutable; spec classes and receivers of mutate_attr do not derive from such types",
     "prepare_attr_value is used through an assumed pure contract in the core proofs",
 ]
 
